@@ -22,8 +22,7 @@ func vpH_C18_password__3(c int) {
 	if h == nil {
 		return
 	}
-	pw := vpStrN(6)
-	vpAssume(vpIsASCII(pw))
+	pw := vpStrN(6) // any bytes: a non-ASCII password makes the CONTINUE undecodable (error paths)
 	w.log.secrets = []string{pw}
 	w.log.check = true
 	sid := vpU32()
